@@ -21,6 +21,9 @@ FIRST_ARGS = [  # (source, is plain str literal, executable literal or None, com
     ("[]", False, None, ""), ("[cmd, '*']", False, None, None),
     # an unpacked sequence as the first positional argument is an argument (seeded change C14-m12 cut call_args at the first starred entry)
     ("*cmd", False, None, None), ("*['ls', '-l']", False, None, None), ("*cmd, 'r'", False, None, None),
+    # the table has no exemption for "trusted" executables (seeded change C14-m14 stopped reporting B603 when the command starts with sys.executable)
+    ("[sys.executable, '-m', 'pip', 'install', pkg]", False, None, None), ("sys.executable", False, None, None), ("(sys.executable, script)", False, None, None),
+    ("[_sys.executable, '-c', code]", False, None, None), ("[shutil.which('git'), 'status']", False, None, None), ("[os.environ['SHELL'], '-c', cmd]", False, None, None),
     # the risky program need not be the first word of a command line given to a shell (seeded change C14-m10 looked at the first word only)
     ("'cd /srv/www && tar czf /tmp/site.tgz *'", True, "cd /srv/www && tar czf /tmp/site.tgz *", "cd /srv/www && tar czf /tmp/site.tgz *"),
     ("'sudo chown www-data: *'", True, "sudo chown www-data: *", "sudo chown www-data: *"),
